@@ -233,8 +233,12 @@ impl FancyState {
         let mut lines = 1;
 
         let max_cols = terminal::get_cols().unwrap_or(80);
+        #[cfg(n2_verif)]
+        let max_cols = verif_hooks::cols_override().unwrap_or(max_cols);
         let max_tasks = 8;
         let now = Instant::now();
+        #[cfg(n2_verif)]
+        let now = verif_hooks::now_override().unwrap_or(now);
         for task in self.tasks.iter().take(max_tasks) {
             let delta = now.duration_since(task.start).as_secs() as usize;
             write!(
@@ -259,6 +263,10 @@ impl FancyState {
 
         // Move cursor up to the first printed line, for overprinting.
         write!(&mut buf, "\x1b[{}A", lines).ok();
+        #[cfg(n2_verif)]
+        if verif_hooks::capture(buf) {
+            buf.clear();
+        }
         std::io::stdout().write_all(&buf).unwrap();
 
         // Set up buf for next print.
@@ -348,6 +356,123 @@ pub mod verif_hooks {
     }
     pub fn progress_bar(counts: &super::StateCounts, bar_size: usize) -> String {
         super::progress_bar(counts, bar_size)
+    }
+
+    use std::cell::RefCell;
+    use std::time::{Duration, Instant};
+    thread_local! {
+        static OVERRIDE: RefCell<Option<(Instant, usize)>> = RefCell::new(None);
+        static CAPTURED: RefCell<Option<Vec<u8>>> = RefCell::new(None);
+    }
+    pub fn cols_override() -> Option<usize> {
+        OVERRIDE.with(|o| o.borrow().map(|(_, c)| c))
+    }
+    pub fn now_override() -> Option<Instant> {
+        OVERRIDE.with(|o| o.borrow().map(|(n, _)| n))
+    }
+    /// true when the frame was taken by a driver (and must not reach stdout)
+    pub fn capture(buf: &[u8]) -> bool {
+        OVERRIDE.with(|o| o.borrow().is_some()) && {
+            CAPTURED.with(|c| *c.borrow_mut() = Some(buf.to_vec()));
+            true
+        }
+    }
+
+    /// The state behind the fancy console, driven directly (no display thread, no terminal):
+    /// times are milliseconds after an arbitrary origin, the width is given per frame.
+    pub struct Fancy {
+        st: super::FancyState,
+        base: Instant,
+    }
+    fn build(desc: Option<String>, cmdline: Option<String>, hide_success: bool) -> super::Build {
+        let mut b = super::Build::new(
+            crate::graph::FileLoc {
+                filename: std::rc::Rc::new(std::path::PathBuf::from("verif")),
+                line: 0,
+            },
+            crate::graph::BuildIns {
+                ids: Vec::new(),
+                explicit: 0,
+                implicit: 0,
+                order_only: 0,
+            },
+            crate::graph::BuildOuts {
+                ids: Vec::new(),
+                explicit: 0,
+            },
+        );
+        b.desc = desc;
+        b.cmdline = cmdline;
+        b.hide_success = hide_success;
+        b
+    }
+    impl Fancy {
+        pub fn new(verbose: bool) -> Fancy {
+            Fancy {
+                st: super::FancyState {
+                    done: false,
+                    pending: Vec::new(),
+                    dirty: false,
+                    dirty_cond: super::Arc::new(super::Condvar::new()),
+                    counts: super::StateCounts::default(),
+                    tasks: super::VecDeque::new(),
+                    verbose,
+                },
+                base: Instant::now(),
+            }
+        }
+        pub fn update(&mut self, counts: &super::StateCounts) {
+            self.st.update(counts);
+        }
+        pub fn task_started(&mut self, id: usize, start_ms: u64, desc: Option<String>, cmdline: Option<String>) {
+            let b = build(desc, cmdline, false);
+            self.st.task_started(super::BuildId::from(id), &b);
+            self.st.tasks.back_mut().unwrap().start = self.base + Duration::from_millis(start_ms);
+        }
+        pub fn task_output(&mut self, id: usize, line: Vec<u8>) {
+            self.st.task_output(super::BuildId::from(id), line);
+        }
+        /// term: 0 success, 1 interrupted, 2 failure
+        pub fn task_finished(
+            &mut self,
+            id: usize,
+            desc: Option<String>,
+            cmdline: Option<String>,
+            hide_success: bool,
+            term: u8,
+            output: Vec<u8>,
+        ) {
+            let b = build(desc, cmdline, hide_success);
+            let result = super::TaskResult {
+                termination: match term {
+                    0 => super::Termination::Success,
+                    1 => super::Termination::Interrupted,
+                    _ => super::Termination::Failure,
+                },
+                output,
+                discovered_deps: None,
+            };
+            self.st.task_finished(super::BuildId::from(id), &b, &result);
+        }
+        pub fn log(&mut self, msg: &str) {
+            self.st.log(msg);
+        }
+        /// the bytes one print_progress call sends to the terminal
+        pub fn print_progress(&mut self, now_ms: u64, cols: usize) -> Vec<u8> {
+            OVERRIDE.with(|o| *o.borrow_mut() = Some((self.base + Duration::from_millis(now_ms), cols)));
+            let r = std::panic::catch_unwind(std::panic::AssertUnwindSafe(|| self.st.print_progress()));
+            OVERRIDE.with(|o| *o.borrow_mut() = None);
+            if let Err(e) = r {
+                std::panic::resume_unwind(e);
+            }
+            CAPTURED.with(|c| c.borrow_mut().take()).unwrap_or_default()
+        }
+        pub fn pending(&self) -> Vec<u8> {
+            self.st.pending.clone()
+        }
+        pub fn task_ids(&self) -> Vec<usize> {
+            self.st.tasks.iter().map(|t| { use crate::densemap::Index; t.id.index() }).collect()
+        }
     }
 }
 
